@@ -120,7 +120,7 @@ Definition worker_release (h s : fd) : list hop := [WClose s; WClose h].
 (* ------------------------------------------------------------------ 3. what HttpProtocolHandler.shutdown releases *)
 Inductive upstream :=
 | UNone                          (* self.upstream is None *)
-| UNoSock                        (* a TcpServerConnection whose connect() failed: _conn is None *)
+| UNoSock                        (* a TcpServerConnection whose connect() failed: _conn is None, closed is still True *)
 | USock (f : fd) (closed : bool).     (* connected; `closed` = TcpConnection.closed *)
 
 Inductive plugin :=
@@ -143,7 +143,7 @@ Definition is_oserror (e : exn) : bool := match e with OSError _ => true | _ => 
 Definition tcp_close (u : upstream) : list fdop * escape :=
   match u with
   | UNone => ([], EscNone)
-  | UNoSock => ([], EscUninit)                 (* `.connection` raises TcpConnectionUninitializedException *)
+  | UNoSock => ([], EscNone)                   (* TcpServerConnection starts with closed = True: nothing to do *)
   | USock f closed => (if closed then [] else [FClose f], EscNone)
   end.
 
@@ -154,7 +154,7 @@ Definition proxy_close (env : renv) (u : upstream) : list fdop * escape :=
   | None =>
       match u with
       | UNone => ([], EscNone)                 (* if self.upstream is None: return *)
-      | UNoSock => ([], EscNone)               (* except TcpConnectionUninitializedException: pass *)
+      | UNoSock => ([], EscNone)               (* `.connection` raises TcpConnectionUninitializedException: caught; close() is a no-op *)
       | USock f closed => (if closed then [] else [FClose f], EscNone)   (* shutdown(SHUT_WR) OSError ignored; finally: self.upstream.close() *)
       end
   end.
@@ -163,7 +163,7 @@ Definition proxy_close (env : renv) (u : upstream) : list fdop * escape :=
 Definition reverse_close (u : upstream) : list fdop * escape :=
   match u with
   | UNone => ([], EscNone)
-  | UNoSock => ([], EscUninit)                 (* closed is False, close() -> `.connection` raises *)
+  | UNoSock => ([], EscNone)                   (* never connected: closed is True *)
   | USock f closed => (if closed then [] else [FClose f], EscNone)
   end.
 
